@@ -107,15 +107,27 @@ pub fn worker_main(world: &World, args: WorkerArgs) -> i32 {
         let progress = progress.clone();
         let current = current.clone();
         let timeout = args.run_timeout_secs.max(1);
+        // The limit is measured in processor time of this process, not in wall-clock time: a
+        // run that spins burns it, a worker that merely gets no processor (the machine is
+        // shared with other checks) does not, and must not be taken for a hang. A run that
+        // sleeps for ever burns none either: for that case there is a wall-clock limit as
+        // well, long enough for a loaded machine.
+        fn cpu_time() -> Duration {
+            let mut ts = libc::timespec { tv_sec: 0, tv_nsec: 0 };
+            unsafe { libc::clock_gettime(libc::CLOCK_PROCESS_CPUTIME_ID, &mut ts) };
+            Duration::new(ts.tv_sec as u64, ts.tv_nsec as u32)
+        }
         std::thread::spawn(move || {
-            let mut last = (u64::MAX, 0u64, Instant::now());
+            let mut last = (u64::MAX, 0u64, Instant::now(), cpu_time());
             loop {
                 std::thread::sleep(Duration::from_millis(200));
                 let p = progress.load(Ordering::SeqCst);
                 let c = current.load(Ordering::SeqCst);
                 if (c, p) != (last.0, last.1) {
-                    last = (c, p, Instant::now());
-                } else if c != u64::MAX && last.2.elapsed() > Duration::from_secs(timeout) {
+                    last = (c, p, Instant::now(), cpu_time());
+                } else if c != u64::MAX
+                    && (cpu_time().saturating_sub(last.3) > Duration::from_secs(timeout) || last.2.elapsed() > Duration::from_secs(timeout * 12))
+                {
                     raw_write(format!("h {}\n", c).as_bytes());
                     unsafe { libc::_exit(3) };
                 }
